@@ -644,6 +644,16 @@ def parse_merchants(content: str, match_mode: str = 'first_match') -> MerchantEn
 # CSV Conversion (Backwards Compatibility)
 # =============================================================================
 
+def _regex_call(pattern: str) -> str:
+    """Render regex("<pattern>") so that the string literal evaluates to exactly `pattern`.
+
+    Backslashes and double quotes must be escaped: the expression is parsed as a Python
+    string literal, where e.g. \\b would otherwise become a backspace and \\1 an octal escape.
+    """
+    escaped = pattern.replace('\\', '\\\\').replace('"', '\\"')
+    return f'regex("{escaped}")'
+
+
 def _modifier_to_expr(parsed_pattern) -> str:
     """Convert parsed CSV modifiers to expression string."""
     conditions = []
@@ -712,7 +722,7 @@ def csv_rule_to_merchant_rule(
     if pattern:
         # Escape any special characters in the pattern for the match expression
         # We use regex() function for the pattern
-        parts.append(f'regex("{pattern}")')
+        parts.append(_regex_call(pattern))
 
     # Add modifier conditions
     modifier_expr = _modifier_to_expr(parsed_pattern)
@@ -815,7 +825,7 @@ def csv_to_merchants_content(csv_rules: List[Tuple]) -> str:
         parts = []
         if pattern:
             # Pattern is already properly escaped for regex use, write as-is
-            parts.append(f'regex("{pattern}")')
+            parts.append(_regex_call(pattern))
 
         modifier_expr = _modifier_to_expr(parsed) if parsed else ""
         if modifier_expr and not modifier_expr.startswith("#"):
